@@ -122,6 +122,7 @@ func (c *ExecCtx) execStmt(st *State, s ast.Stmt) []*State {
 			nv = Sub(v.T, one)
 		}
 		c.assignTo(st, x.X, Val{nv, v.Ty})
+		c.runGhostAnchors(st, s, "after")
 		return live(st)
 	case *ast.BlockStmt:
 		return c.execBlock([]*State{st}, x.List)
